@@ -191,7 +191,7 @@ def run(rep, ctx):
           r"mp::SolveResultRegistry::SolveResultRegistry"]
     jobs = [dict(unit=u, fn=fn, enum=[r"mp::sol::Status"], repo=repo, closure=1,
                  closure_roots=r"::IsProblem[A-Za-z]*$") for u in vis]
-    jobs.append(dict(unit="src/solver.cc", fn=fn, enum=[r"mp::sol::Status"], repo=repo))
+    jobs.append(dict(unit="src/solver.cc", fn=fn, enum=[r"mp::sol::Status"], repo=repo, closure=1, closure_roots=r"SolveResultRegistry::SolveResultRegistry$"))
     if ctx["tier"] == "thorough":
         for u, k in units.UNITS.items():
             if k in ("test", "mp") and u != "src/solver.cc":
@@ -502,7 +502,13 @@ def run(rep, ctx):
     if not regs:
         raise AnalysisBroken("SolveResultRegistry constructor not found")
     rows = []
-    for n in regs[0].walk():
+    # the table is written in the constructor or in a function that builds it for the constructor
+    reg_nodes = list(regs[0].walk())
+    for c_ in list(reg_nodes):
+        g_ = getattr(F, "_by_id", {}).get(c_.get("calleeId")) if c_["k"] in ("CallExpr", "CXXMemberCallExpr") else None
+        if g_ is not None and g_ is not regs[0] and g_.cfg is not None:
+            reg_nodes += list(g_.walk())
+    for n in reg_nodes:
         if n["k"] in ("CXXConstructExpr", "CXXTemporaryObjectExpr") and \
                 n.get("callee", "").endswith("RegEntry::RegEntry"):
             a = kids(n)
